@@ -8,7 +8,6 @@ import SockModel.Drive.C09
 import SockModel.Drive.C10
 import SockModel.Drive.C11
 import SockModel.Drive.C12
-import SockModel.Drive.UriOld
 import SockModel.Drive.C13
 import SockModel.Drive.C14
 import SockModel.Drive.C15
@@ -44,8 +43,6 @@ def dispatch (mode : String) : Option (List String → Verdict) :=
   | "C13" => some SockModel.Drive.C13.runCase
   | "C11" => some SockModel.Drive.C11.runCase
   | "C12" => some SockModel.Drive.C12.runCase
-  | "C11old" => some SockModel.Drive.UriOld.runCase11
-  | "C12old" => some SockModel.Drive.UriOld.runCase12
   | "C18" => some SockModel.Drive.C18.runCase
   | "C15" => some SockModel.Drive.C15.runCase
   | _ => none
